@@ -29,6 +29,8 @@ pub enum Ty {
     /// `BTreeMap<K, V>` / `HashMap<K, V>` with an unsigned integer key: association list sorted by key; the flag says
     /// "HashMap" (iteration is then rejected)
     Map(Box<Ty>, Box<Ty>, bool),
+    /// `BTreeSet<uN>`: ascending list of its elements
+    Set(Box<Ty>),
     /// `std::time::Duration` (nanoseconds as `Nat`; comparison and copy only)
     Dur,
     /// translated struct / enum (simple Rust name)
